@@ -6,7 +6,8 @@ decodeStyledParameter / decodeValue (req_resp_decoder.go) as is needed to say wh
 The request's parameters are a store: (location, name) ↦ the list of raw values, in order of appearance
 (query: `url.Values[name]`; header: `Header[CanonicalHeaderKey(name)]`; cookie: the cookies of that name; path:
 `PathParams[name]`).  A raw value is kept by SHAPE, not as text (`Wire`): the empty string, `fmt.Sprint` of a scalar,
-scalars joined by ",", or `fmt.Sprint` of a slice ("[1 2]").  Text ↔ number conversion (strconv) is trusted.
+scalars joined by ",", or `fmt.Sprint` of a slice ("[1 2]" — no longer written by the repaired code, still a possible
+incoming value).  Text ↔ number conversion (strconv) is trusted.
 
 Branch by branch:
   * decode: query/header/path take the FIRST raw value of the key (`values[0]`, `raw[0]`), cookies the first cookie of
@@ -15,9 +16,13 @@ Branch by branch:
     ","; cookie: split at ",", and explode=true is "invalid serialization method"; an item that decodes to nil makes
     the whole array nil; an array without items is nil;
   * decode error → RequestError before any default is looked at;
-  * defaults: only when SkipSettingDefaults is off, the decoded value is nil and the schema has a default: path —
-    nothing is written; query — scalar: `q.Add(name, Sprint v)`; array: one Add per item with explode, else one Add of
-    the items joined by ","; header — `Header.Add(name, Sprint v)`; cookie — `AddCookie(name, Sprint v)`;
+  * defaults (the repaired code: commits "a parameter default was appended although the parameter was present",
+    "array defaults of header and cookie parameters were written as Go slices", "validating the same input twice
+    appended query defaults again"): only when SkipSettingDefaults is off, the decoded value is nil, the parameter was
+    NOT FOUND and the schema has a default: path — nothing is written; query — scalar: `q.Add(name, Sprint v)`; array:
+    one Add per item with explode, else one Add of the items joined by ","; then `RawQuery = q.Encode()` and the
+    query cache `input.QueryParams = q`; header — `Header.Add(name, defaultValueText v)`; cookie —
+    `AddCookie(name, defaultValueText v)` where defaultValueText joins an array by "," and Sprints a scalar;
   * then: required and not found → error; value still nil → error iff found and not allowEmptyValue; otherwise the
     value (decoded, or the default itself) is validated against the schema.
 Not modelled: content parameters, object-valued parameters, allOf/anyOf/oneOf parameter schemas, styles other than
@@ -157,7 +162,7 @@ def encodeDefault (p : Param) (d : PVal) : List Wire :=
   | .query, .sc a => [.lit a]
   | .query, .list as => if p.explode then as.map .lit else [mkCsv as]
   | _, .sc a => [.lit a]
-  | _, .list as => [.sprint as]
+  | _, .list as => [mkCsv as]
 
 /-- writing a default into the request (`q.Add` creates the key even … only when something is added) -/
 def writeDefault (p : Param) (d : PVal) (st : Store) : Store :=
@@ -185,7 +190,7 @@ def stepWith (skip : Bool) (p : Param) (raw : Option (List Wire)) (st : Store) :
   | .err => (st, false)
   | .val => (st, true)
   | .nil found =>
-    match (if skip then none else p.dflt) with
+    match (if skip || found then none else p.dflt) with
     | some d =>
       (writeDefault p d st, !(p.required && !found) && dfltValid p.ty d)
     | none =>
@@ -204,59 +209,52 @@ def paramsPhase (skip multi : Bool) : List Param → Store → Store × Bool
       let (st2, ok2) := paramsPhase skip multi ps st1
       (st2, ok && ok2)
 
-/-- The code as it is: QUERY parameters are decoded from `RequestValidationInput.QueryParams` — a cache that
-    `GetQueryParams` fills from the URL at its first use and never refreshes — while defaults are written into the URL.
-    `view` is that cache (for a fresh input: the query as it was when the validation began). -/
-def paramStepCached (skip : Bool) (view : Store) (p : Param) (st : Store) : Store × Bool :=
-  stepWith skip p ((if p.loc = .query then view else st).get p.key) st
+/-- the "Set default value" block runs with a non-nil default -/
+def defaultBranch (skip : Bool) (p : Param) (raw : Option (List Wire)) : Bool :=
+  match decode p raw with
+  | .nil false => !skip && p.dflt.isSome
+  | _ => false
 
-def paramsPhaseCached (skip multi : Bool) (view : Store) : List Param → Store → Store × Bool
-  | [], st => (st, true)
-  | p :: ps, st =>
-    let (st1, ok) := paramStepCached skip view p st
-    if !ok && !multi then (st1, false)
+/-- The code as it is: QUERY parameters are decoded from `RequestValidationInput.QueryParams`, a cache that
+    `GetQueryParams` fills from the URL at its first use; defaults are written into the URL, and (repaired code) the
+    cache is replaced by the rewritten query at the same time.  `view` is that cache.
+    Result: cache afterwards, request afterwards, verdict. -/
+def paramStepCached (skip : Bool) (view : Store) (p : Param) (st : Store) : Store × Store × Bool :=
+  ((if p.loc = .query && defaultBranch skip p ((if p.loc = .query then view else st).get p.key)
+      then (stepWith skip p ((if p.loc = .query then view else st).get p.key) st).1 else view),
+   (stepWith skip p ((if p.loc = .query then view else st).get p.key) st).1,
+   (stepWith skip p ((if p.loc = .query then view else st).get p.key) st).2)
+
+def paramsPhaseCached (skip multi : Bool) : Store → List Param → Store → Store × Store × Bool
+  | view, [], st => (view, st, true)
+  | view, p :: ps, st =>
+    if !(paramStepCached skip view p st).2.2 && !multi
+    then ((paramStepCached skip view p st).1, (paramStepCached skip view p st).2.1, false)
     else
-      let (st2, ok2) := paramsPhaseCached skip multi view ps st1
-      (st2, ok && ok2)
+      ((paramsPhaseCached skip multi (paramStepCached skip view p st).1 ps (paramStepCached skip view p st).2.1).1,
+       (paramsPhaseCached skip multi (paramStepCached skip view p st).1 ps (paramStepCached skip view p st).2.1).2.1,
+       (paramStepCached skip view p st).2.2 &&
+         (paramsPhaseCached skip multi (paramStepCached skip view p st).1 ps (paramStepCached skip view p st).2.1).2.2)
 
-/-! ### exclusion classes (new findings of this check) and the spec -/
+/-- the cache agrees with the URL on every query parameter -/
+def InSync (view st : Store) : Prop := ∀ n : String, view.get (Loc.query, n) = st.get (Loc.query, n)
 
-def Wire.isEmpty : Wire → Bool | .empty => true | _ => false
+/-! ### the remaining exclusion class and the spec -/
 
-/-- F-C13-3: the parameter is present but decodes to nil (empty value) and has a default: the default is appended on
-    every validation.  The empty value may itself be a default written before (an empty array joined by ","). -/
-def EmptyPresent (skip : Bool) (p : Param) (st : Store) : Bool :=
-  !skip && p.loc != .path && p.ty != .untyped &&
+/-- F-C13-7: the default that is written reads back as "no value" on the next validation — a schema without `type`
+    never decodes to a value, and an empty array joined by "," is the empty string — and a parameter that is found
+    without a value is rejected ("empty value is not allowed") unless allowEmptyValue is set.  The forwarded request
+    is then stable but does not validate again. -/
+def DefaultReadsAsEmpty (skip : Bool) (p : Param) (st : Store) : Bool :=
+  !skip && !p.allowEmpty && decode p (st.get p.key) == .nil false &&
   (match p.dflt with
-   | some d => decode p (st.get p.key) == .nil true ||
-               (decode p (st.get p.key) == .nil false && encodeDefault p d == [.empty])
+   | some d => encodeDefault p d != [] && (p.ty == .untyped || encodeDefault p d == [.empty])
    | none => false)
-
-/-- F-C13-4: a schema without `type` never decodes to a value: its default is appended on every validation,
-    also when the parameter is present -/
-def UntypedDefault (skip : Bool) (p : Param) : Bool :=
-  !skip && p.dflt.isSome && p.loc != .path && p.ty == .untyped
-
-/-- F-C13-5: an array default of a header or cookie parameter is written as `fmt.Sprint` of the slice -/
-def SprintArrayDefault (skip : Bool) (p : Param) (st : Store) : Bool :=
-  !skip && (p.loc == .header || p.loc == .cookie) &&
-  (match p.dflt with | some (.list _) => true | _ => false) &&
-  (match decode p (st.get p.key) with | .nil _ => true | _ => false)
-
-/-- F-C13-6: the second validation REUSES the RequestValidationInput of the first: its query cache does not contain
-    the default the first validation wrote into the URL, so the default is written again -/
-def StaleQueryCache (reuse skip : Bool) (p : Param) (st0 : Store) : Bool :=
-  reuse && !skip && p.loc == .query && p.dflt.isSome &&
-  (match decode p (st0.get p.key) with | .nil _ => true | _ => false)
 
 /-- the parameters of one operation have pairwise distinct (location, name) -/
 def keysDistinct : List Param → Bool
   | [] => true
   | p :: ps => ps.all (fun q => q.key != p.key) && keysDistinct ps
-
-/-- the parameter is in none of the three classes -/
-def Regular (skip : Bool) (p : Param) (st : Store) : Bool :=
-  !EmptyPresent skip p st && !UntypedDefault skip p && !SprintArrayDefault skip p st
 
 /-- Spec, from the property text: a parameter that is ABSENT and has a default appears with that default, in the
     serialisation its own decoder reads; nothing else changes. -/
